@@ -182,7 +182,20 @@ func doReplay(path, tmp string) int {
 			fmt.Println("cannot build the daemon:", err)
 			return 2
 		}
-		rs = append(rs, runC08Scenario(bin, filepath.Join(tmp, "replay"), doc.Scenario, doc.Variant, 0))
+		reps := 1
+		if racyVariant(doc.Scenario, doc.Variant) {
+			reps = 12 // where the sshd worker is when its sibling fails is the scheduler's choice
+		}
+		for i := 0; i < reps; i++ {
+			r := runC08Scenario(bin, filepath.Join(tmp, fmt.Sprintf("replay%d", i)), doc.Scenario, doc.Variant, i)
+			if r.HarnessErr != "" && i+1 < reps {
+				continue
+			}
+			rs = append(rs, r)
+			if r.FailKey != "" {
+				break
+			}
+		}
 	default:
 		fmt.Println("replay file names no property")
 		return 2
